@@ -110,6 +110,32 @@ def run(pid, tier):
                         semver_next_commit=core.cp_text(ev["nsemver"]["s"]), hash=ev["hash"])])
         os.remove(part)
     core.log("  validated %d observed flow runs with Trace_Flow, %d rejected for %s" % (tev, tbad, "/".join(mine)))
+    if pid == "C03":
+        # along real git histories: flow version before / after every commit of random sessions
+        from .c02 import TRACE_CFG as GIT_TRACE_CFG
+        sessions = 200 if tier == "quick" else 3000
+        pairs = 0
+        for k in range(0, sessions, 200):
+            path = os.path.join(core.BUILD, "c03-git-%d.ndjson" % k)
+            core.zv(["record", "gitrepo", core.seed() * 1000 + 500 + k // 200, 200, path], timeout=14400)
+            saved = core.TRACE_CFG
+            core.TRACE_CFG = GIT_TRACE_CFG
+            try:
+                events, bad, tr = core.trace_validate("Trace_GitRepo", path, "c03-git", marker=True)
+            finally:
+                core.TRACE_CFG = saved
+            pairs += sum(1 for e in events if e["k"] == "flowpair")
+            states += tr["distinct"]
+            trans += tr["states"]
+            for i, ev in bad:
+                if not ev.get("_reason", "").startswith("flow-"):
+                    continue
+                tbad += 1
+                v.add([dict(key="C03:" + ev["_reason"], line=i, trace=path, branch=ev["branch"], base_tag=core.cp_text(ev["tag"]),
+                            before=core.cp_text(ev["sv0"]), after=core.cp_text(ev["sv1"]),
+                            pep_before=core.cp_text(ev["pep0"]), pep_after=core.cp_text(ev["pep1"]))])
+        tev += pairs
+        core.log("  %d before/after-commit flow pairs along real git histories judged" % pairs)
     cov = dict(states=states, transitions=trans, traces_validated_against_impl=rep["evaluations"] + tev,
                samples=rep["samples"][:4], evaluations=rep["evaluations"] + tev, distinct_nontrivial=rep["nontrivial"],
                rule="Gen: %d tags x %d branch names x distance {unset,0,1,3} x {-, --dirty, --no-dirty, --clean} x --post {-,5} x "
